@@ -155,7 +155,8 @@ theorem genSt_abs {r : Role} {regs : Regs} {st : St} (h : GenSt r regs st) : Gen
     exact .step _ c ih
 
 /-- the generated public methods keep `GenSt` (all of them; `bind` for `version = 3`, `search_request` for
-    member values of the two enums: outside them it raises and changes nothing) -/
+    member values of the two enums: outside them it raises and changes nothing; `receive` under `ResidueAgrees`,
+    see there) -/
 theorem GenSt.data_to_send {r regs st} (h : GenSt r regs st) (amount : Option Int) :
     GenSt r regs (LDAPSession_data_to_send st amount).2 :=
   .call _ _ st _ h (TiesSession.tie_data_to_send r regs st amount)
@@ -166,13 +167,47 @@ theorem GenSt.client_unbind {regs st} (h : GenSt .client regs st) : GenSt .clien
 theorem GenSt.server_unbind {regs st} (h : GenSt .server regs st) : GenSt .server regs (LDAPServer_LDAPSession_unbind st).2 :=
   .call _ _ st _ h (TiesSession.tie_server_unbind regs st)
 
-theorem GenSt.client_receive {regs st} (h : GenSt .client regs st) (chunk : Bytes) :
-    GenSt .client regs (LDAPClient_receive st chunk (unpackOracle regs defaultDepth st.incoming_buffer chunk)).2 :=
-  .call _ _ st _ h (TiesSession.tie_client_receive_step regs st chunk)
+/-- `ResidueAgrees` from a successful unpacking (decidable on concrete octets) -/
+theorem residueAgrees_of_ok {regs : Regs} {st : St} {chunk : Bytes}
+    (h : (parseLoop regs defaultDepth (st.incoming_buffer ++ chunk).length
+            (st.incoming_buffer ++ chunk)).toOption.isSome = true) :
+    ResidueAgrees regs defaultDepth st chunk := by
+  cases hp : parseLoop regs defaultDepth (st.incoming_buffer ++ chunk).length (st.incoming_buffer ++ chunk) with
+  | ok p => exact .inr ⟨p, hp⟩
+  | error e => rw [hp] at h; cases h
 
-theorem GenSt.server_receive {regs st} (h : GenSt .server regs st) (chunk text : Bytes) :
-    GenSt .server regs (LDAPServer_receive st chunk (unpackOracle regs defaultDepth st.incoming_buffer chunk) text).2 :=
-  .call _ _ st _ h (TiesSession.tie_server_receive_step regs st chunk text)
+/-- `receive` with `unpack_ldap_message := decMsg regs defaultDepth` (round 12: the unpacking loops are generated
+    text, `unpackOracle` is gone).  The step tie is exact only under `ResidueAgrees` (the buffer was non-empty
+    before the call, or the unpacking of `_incoming_buffer ++ chunk` does not raise); it is carried here as an
+    explicit hypothesis.  It is NOT an invariant of `GenSt`: on an empty buffer and a chunk whose unpacking raises
+    the Python leaves `_incoming_buffer = []` while the model's `recv` keeps `chunk` as residue, so the abstraction
+    of the resulting (CLOSED) record is not the model's step.  For that case see `GenSt.client_receive_forget` /
+    `GenSt.server_receive_forget` (everything but the residue is the model's step, unconditionally). -/
+theorem GenSt.client_receive {regs st} (h : GenSt .client regs st) (chunk : Bytes)
+    (hra : ResidueAgrees regs defaultDepth st chunk) :
+    GenSt .client regs (LDAPClient_receive st chunk (decMsg regs defaultDepth)).2 :=
+  .call _ _ st _ h (TiesSession.tie_client_receive_step regs st chunk hra)
+
+theorem GenSt.server_receive {regs st} (h : GenSt .server regs st) (chunk text : Bytes)
+    (hra : ResidueAgrees regs defaultDepth st chunk) :
+    GenSt .server regs (LDAPServer_receive st chunk (decMsg regs defaultDepth) text).2 :=
+  .call _ _ st _ h (TiesSession.tie_server_receive_step regs st chunk text hra)
+
+/-- without `ResidueAgrees` (the `_forget` ties): up to the residue, the abstraction of the record after `receive`
+    is the session after the model's `.receive` step from a `GenReachable` session (hence itself `GenReachable`) -/
+theorem GenSt.client_receive_forget {regs st} (h : GenSt .client regs st) (chunk : Bytes) :
+    ∃ s', GenReachable s' ∧
+      { absS .client regs (LDAPClient_receive st chunk (decMsg regs defaultDepth)).2 with residue := [] }
+        = { s' with residue := [] } :=
+  ⟨(step (absS .client regs st) (.receive chunk)).1, .step _ _ (genSt_abs h),
+    congrArg Prod.fst (TiesSession.tie_client_receive_step_forget regs st chunk)⟩
+
+theorem GenSt.server_receive_forget {regs st} (h : GenSt .server regs st) (chunk text : Bytes) :
+    ∃ s', GenReachable s' ∧
+      { absS .server regs (LDAPServer_receive st chunk (decMsg regs defaultDepth) text).2 with residue := [] }
+        = { s' with residue := [] } :=
+  ⟨(step (absS .server regs st) (.receive chunk)).1, .step _ _ (genSt_abs h),
+    congrArg Prod.fst (TiesSession.tie_server_receive_step_forget regs st chunk text)⟩
 
 theorem GenSt.bind {regs st} (h : GenSt .client regs st) (dn : Bytes) (cred : Cred) (controls : Option (List Control))
     (hv : st.version = Facts.ldapVersion) : GenSt .client regs (LDAPClient_bind st dn cred controls).2 :=
@@ -224,9 +259,9 @@ theorem GenSt.search_result_done {regs st} (h : GenSt .server regs st) (id : Int
 example : GenSt .server {}
     (LDAPServer_extended_response
       (LDAPServer_receive LDAPServer_new [48, 8, 2, 1, 1, 119, 3, 128, 1, 49]
-        (unpackOracle {} defaultDepth LDAPServer_new.incoming_buffer [48, 8, 2, 1, 1, 119, 3, 128, 1, 49]) []).2
+        (decMsg {} defaultDepth) []).2
       1 none none 0 none none none).2 :=
-  ((GenSt.new_server rfl).server_receive _ _).extended_response 1 none none 0 none none none
+  ((GenSt.new_server rfl).server_receive _ _ (residueAgrees_of_ok (by decide))).extended_response 1 none none 0 none none none
 
 /-! ### transfer principles -/
 
@@ -380,7 +415,7 @@ theorem c12_totals_fresh_server (regs : Regs) (cs : List Call) :
 /-! non-vacuity of the transfer: a live server history through the generated functions -/
 example :
     let st1 := (LDAPServer_receive LDAPServer_new [48, 8, 2, 1, 1, 119, 3, 128, 1, 49]
-      (unpackOracle {} defaultDepth LDAPServer_new.incoming_buffer [48, 8, 2, 1, 1, 119, 3, 128, 1, 49]) []).2
+      (decMsg {} defaultDepth) []).2
     let st2 := (LDAPServer_extended_response st1 1 none none 0 none none none).2
     st1.outstanding_requests = [1] ∧ st2.outstanding_requests = [] ∧ st2.state = .OPENED ∧ st2.message_counter = 0 ∧
       st2.outgoing_buffer ≠ [] := by decide
